@@ -473,9 +473,10 @@ func checkKeyGenerators(c *Ctx) {
 			okPub = true
 		}
 	}
-	for _, a := range allocsOf(ctor, "ssh/agent.AddedKey") {
-		fs := FieldStores(ctor, a)
-		if vs := fs["PrivateKey"]; len(vs) == 1 && strip(vs[0]) == extractOf(gcall, 0) {
+	w.Focus(ctor)
+	for _, a := range w.allocsOfDeep(ctor, "ssh/agent.AddedKey") {
+		fs := w.FieldStoresDeep(ctor, a)
+		if vs := fs["PrivateKey"]; len(vs) == 1 && (strip(vs[0]) == extractOf(gcall, 0) || w.canon(ctor, vs[0]) == extractOf(gcall, 0)) {
 			okPriv = true
 		}
 	}
